@@ -26,3 +26,8 @@ package redis
 //@ func (*SessionStore).VerifyConnection
 //@ prop C13
 //@ ensures[ping-passthrough] ret0 == ret(Ping)
+
+//@ func NewRedisSessionStore
+//@ prop C13 C09
+//@ ensures[manager-over-this-redis-store-with-the-cookie-options] ret1 == nil ==> called(NewManager) && arg(NewManager, 1) == cookieOpts
+//@ ensures[client-error-is-an-error] ret1(NewRedisClient) != nil ==> ret1 != nil && ret0 == nil
